@@ -37,6 +37,9 @@ MAX_HELPER_STMTS = 80
 MAX_DEPTH = 4
 
 
+from . import roles  # noqa: E402
+
+
 class _Skip(Exception):
     pass
 
@@ -319,6 +322,8 @@ class Inliner:
         private = n.startswith("_") or (g.cls is not None and g.cls.name.startswith("_"))
         if not private or n.startswith("__") or _known_to_analyser(n, g.module.name):
             return None
+        if roles.role_of(g) is not None:
+            return None  # an anchor found by what it does (sa/roles.py)
         if g.kind not in ("function", "method", "staticmethod"):
             return None
         decos = [ast.unparse(d) for d in node.decorator_list if (ast.unparse(d) != "staticmethod")]
